@@ -358,6 +358,11 @@ func (hs *serverHandshakeState) pickCipherSuite() error {
 }
 
 func (hs *serverHandshakeState) cipherSuiteOk(c *cipherSuite) bool {
+	if c.flags&suiteDSS != 0 {
+		// DSA server keys are not supported, so a DSS suite can never be
+		// completed; skip it so that another mutually supported suite is chosen.
+		return false
+	}
 	if c.flags&suiteECDHE != 0 {
 		if !hs.ecdheOk {
 			return false
